@@ -148,3 +148,13 @@ Fixpoint sorted_b {A} (leb : A -> A -> bool) (l : list A) : bool :=
   end.
 Definition journal_wf (ts : list jtxn) : bool :=
   negb (is_nil ts) && forallb jtxn_wf ts && sorted_b jtxn_leb ts.
+
+(* ------------------------------------------------------------------ hypotheses of the image theorem *)
+(* journal zone: a fixed whole-minute offset within jiff's range; default time inside the day *)
+Definition cfg_ok (cfg : pcfg) : bool :=
+  (cfg_off cfg mod 60 =? 0) && (Z.abs (cfg_off cfg) <=? max_off)
+  && (0 <=? cfg_deftime cfg) && (cfg_deftime cfg <? DAY_NS).
+(* exact decimal domain of the result: every amount and transaction amount is representable
+   (the library rounds or panics otherwise; Dec.v computes on unbounded integers) *)
+Definition in_domain (ts : list jtxn) : bool :=
+  forallb (fun t => forallb (fun jp => fits (p_amount (jp_p jp)) && fits (p_txn_amount (jp_p jp))) (jt_posts t)) ts.
